@@ -564,3 +564,176 @@ Example C04_pipeline_output_nonvacuous :
   | _ => False
   end.
 Proof. vm_compute. repeat split; try reflexivity. eexists. split; reflexivity. Qed.
+
+
+(* ---------------------------------------------------------------- the sanity check
+   "share balance across all affiliates is lower than the share balance for
+   the affiliate" under rust_decimal ROUNDING, after the fix "compute the
+   all-affiliate share balance with one expression everywhere" (50e93b7).
+
+   After a split whose factor is not a finite decimal balances carry 28
+   significant digits.  Before the fix the Split arm computed the
+   all-affiliate balance as all + (new - old), which for a SINGLE affiliate is
+   rounded differently from new itself: the next valid row was rejected by the
+   sanity check (the old witness of the finding split-residue).  Now the
+   balance is (all - old) + new, and:
+   - every row, any history, any number of affiliates: the all-affiliate
+     balance of the post status is never below the share balance of the row's
+     own affiliate (C04_row_all_ge_share), so the next row of that affiliate
+     passes the test when no other affiliate came in between;
+   - a single affiliate: the two balances are EQUAL on every emitted row of the
+     run and the test is false in every state the run reaches
+     (C04_single_affiliate_no_residue, C04_single_affiliate_run) - whatever
+     splits the history contains;
+   - what remains (known finding split-residue, narrowed): with SEVERAL
+     affiliates the all-affiliate balance is a running value rounded at every
+     row and can fall a last digit below ANOTHER affiliate's balance
+     (C04_residue_remaining_refuted); and accept/reject decisions taken on a
+     balance that is itself rounded. *)
+From ACB Require Import Base.Fit Proofs.FitMono Proofs.AllAfter Proofs.C04Residue Proofs.C05Sites.
+Local Open Scope Z_scope.
+
+(* rounding never crosses a value from above: the lemma the invariant rests on *)
+Theorem C04_rounding_keeps_values_below : forall x y r : Qc,
+  fit x = Some y -> fit r = Some r -> (r <= x)%Qc -> (r <= y)%Qc.
+Proof. exact FitMono.fit_ge_rep. Qed.
+Check C04_rounding_keeps_values_below : forall x y r : Qc,
+  fit x = Some y -> fit r = Some r -> (r <= x)%Qc -> (r <= y)%Qc.
+Print Assumptions C04_rounding_keeps_values_below.
+
+Theorem C04_row_all_ge_share : forall bef t aft st d inj,
+  delta_for_tx Base.Arith.dec bef t aft st = Ok (d, inj) -> (s_sh (d_post d) <= s_all (d_post d))%Qc.
+Proof. exact C04Residue.row_all_ge_share. Qed.
+Check C04_row_all_ge_share : forall bef t aft st d inj,
+  delta_for_tx Base.Arith.dec bef t aft st = Ok (d, inj) -> (s_sh (d_post d) <= s_all (d_post d))%Qc.
+Print Assumptions C04_row_all_ge_share.
+
+Theorem C04_next_row_passes_all_lower : forall bef t aft st d inj st1,
+  delta_for_tx Base.Arith.dec bef t aft st = Ok (d, inj) ->
+  set_latest Base.Arith.dec st (t_af t) (d_post d) = Ok st1 ->
+  Qcltb (s_all (next_pre_status st1 (t_af t))) (s_sh (next_pre_status st1 (t_af t))) = false.
+Proof. exact C04Residue.next_row_passes_all_lower. Qed.
+Check C04_next_row_passes_all_lower : forall bef t aft st d inj st1,
+  delta_for_tx Base.Arith.dec bef t aft st = Ok (d, inj) ->
+  set_latest Base.Arith.dec st (t_af t) (d_post d) = Ok st1 ->
+  Qcltb (s_all (next_pre_status st1 (t_af t))) (s_sh (next_pre_status st1 (t_af t))) = false.
+Print Assumptions C04_next_row_passes_all_lower.
+
+Theorem C04_single_affiliate_no_residue : forall bef t aft st d inj,
+  delta_for_tx Base.Arith.dec bef t aft st = Ok (d, inj) ->
+  s_all (next_pre_status st (t_af t)) = s_sh (next_pre_status st (t_af t)) ->
+  s_all (d_post d) = s_sh (d_post d).
+Proof. exact C04Residue.single_affiliate_no_residue. Qed.
+Check C04_single_affiliate_no_residue : forall bef t aft st d inj,
+  delta_for_tx Base.Arith.dec bef t aft st = Ok (d, inj) ->
+  s_all (next_pre_status st (t_af t)) = s_sh (next_pre_status st (t_af t)) ->
+  s_all (d_post d) = s_sh (d_post d).
+Print Assumptions C04_single_affiliate_no_residue.
+
+(* whole runs of one affiliate: every emitted row (generated cost-base
+   adjustments included) shows all = share; every state reached keeps the
+   tracker's total equal to the affiliate's balance, where the first test of
+   sanity_check_ptfs is false *)
+Theorem C04_single_affiliate_run : forall (af : aff) txs ds o,
+  run Base.Arith.dec None txs = (ds, o) -> Forall (fun t => t_af t = af) txs ->
+  Forall (fun d => s_all (d_post d) = s_sh (d_post d)) ds.
+Proof. exact C04Residue.run_single_affiliate. Qed.
+Check C04_single_affiliate_run : forall (af : aff) txs ds o,
+  run Base.Arith.dec None txs = (ds, o) -> Forall (fun t => t_af t = af) txs ->
+  Forall (fun d => s_all (d_post d) = s_sh (d_post d)) ds.
+Print Assumptions C04_single_affiliate_run.
+
+Theorem C04_single_affiliate_state : forall (af : aff) bef t aft st d inj st1,
+  t_af t = af -> ps_all st = C05Sites.last_sh st af ->
+  delta_for_tx Base.Arith.dec bef t aft st = Ok (d, inj) ->
+  set_latest Base.Arith.dec st (t_af t) (d_post d) = Ok st1 ->
+  Qcltb (s_all (next_pre_status st af)) (s_sh (next_pre_status st af)) = false /\
+  s_all (d_post d) = s_sh (d_post d) /\ ps_all st1 = C05Sites.last_sh st1 af.
+Proof.
+  intros af bef t aft st d inj st1 Ht Hs Hd Hset.
+  split; [exact (C04Residue.single_sanity_passes af st Hs)|].
+  exact (C04Residue.step_single af _ _ _ _ _ _ _ Ht Hs Hd Hset).
+Qed.
+Check C04_single_affiliate_state : forall (af : aff) bef t aft st d inj st1,
+  t_af t = af -> ps_all st = C05Sites.last_sh st af ->
+  delta_for_tx Base.Arith.dec bef t aft st = Ok (d, inj) ->
+  set_latest Base.Arith.dec st (t_af t) (d_post d) = Ok st1 ->
+  Qcltb (s_all (next_pre_status st af)) (s_sh (next_pre_status st af)) = false /\
+  s_all (d_post d) = s_sh (d_post d) /\ ps_all st1 = C05Sites.last_sh st1 af.
+Print Assumptions C04_single_affiliate_state.
+
+(* the old witness of the finding (20.5 shares, 1.0-for-3.0 split, return of
+   capital): rejected by the sanity check before the fix, accepted now - three
+   rows, balances 6.8333333333333333333333333333 = total on both later rows *)
+Definition rq (n : Z) (d : positive) := Qcfrac n d.
+Definition rmk af sd a :=
+  {| t_sec := 0; t_td := sd; t_sd := sd; t_act := a; t_af := af; t_glob := false; t_ri := 0 |}.
+Definition residue_old : list tx := [
+  rmk default_aff 100 (Buy (rq 41 2) (rq 1 1) (rq 0 1) (rq 1 1) (rq 1 1));
+  rmk default_aff 160 (Split (rq 1 1) (rq 3 1) false);
+  rmk default_aff 190 (Roc (rq 1 100) (rq 1 1))].
+Definition residue_obs (A : arith) (w : list tx) :=
+  (snd (run A None w),
+   map (fun d => let s := d_post d in
+                 ((Qnum (this (s_sh s)), Qden (this (s_sh s))), (Qnum (this (s_all s)), Qden (this (s_all s)))))
+       (fst (run A None w))).
+Theorem C04_split_residue_witness_accepted :
+  residue_obs Base.Arith.dec residue_old =
+    (None, [((41, 2%positive), (41, 2%positive));
+            ((68333333333333333333333333333, 10000000000000000000000000000%positive),
+             (68333333333333333333333333333, 10000000000000000000000000000%positive));
+            ((68333333333333333333333333333, 10000000000000000000000000000%positive),
+             (68333333333333333333333333333, 10000000000000000000000000000%positive))]) /\
+  snd (run Base.Arith.exact None residue_old) = None.
+Proof. vm_compute. split; reflexivity. Qed.
+Check C04_split_residue_witness_accepted :
+  residue_obs Base.Arith.dec residue_old =
+    (None, [((41, 2%positive), (41, 2%positive));
+            ((68333333333333333333333333333, 10000000000000000000000000000%positive),
+             (68333333333333333333333333333, 10000000000000000000000000000%positive));
+            ((68333333333333333333333333333, 10000000000000000000000000000%positive),
+             (68333333333333333333333333333, 10000000000000000000000000000%positive))]) /\
+  snd (run Base.Arith.exact None residue_old) = None.
+Print Assumptions C04_split_residue_witness_accepted.
+
+(* what remains of the finding: two holders of 10 shares, 1-for-3 split of
+   both, the first sells its 3.3333333333333333333333333333: the running total
+   is 3.3333333333333333333333333330, a digit below the other holder's
+   balance, whose next (valid) row is rejected by the sanity check under
+   rounding; exact arithmetic accepts the history *)
+Definition residue_b := {| af_id := 1003; af_reg := false; af_dflt := false |}.
+Definition residue_two : list tx := [
+  rmk default_aff 100 (Buy (rq 10 1) (rq 1 1) (rq 0 1) (rq 1 1) (rq 1 1));
+  rmk residue_b 101 (Buy (rq 10 1) (rq 1 1) (rq 0 1) (rq 1 1) (rq 1 1));
+  rmk default_aff 160 (Split (rq 1 1) (rq 3 1) false);
+  rmk residue_b 160 (Split (rq 1 1) (rq 3 1) false);
+  rmk default_aff 190 (Sell (rq 33333333333333333333333333333 10000000000000000000000000000) (rq 4 1) (rq 0 1) (rq 1 1) (rq 1 1) None);
+  rmk residue_b 220 (Roc (rq 1 100) (rq 1 1))].
+Theorem C04_residue_remaining_refuted :
+  forallb valid_tx residue_two = true /\
+  snd (run Base.Arith.dec None residue_two) = Some (SRej RejSanityAllLower) /\
+  length (fst (run Base.Arith.dec None residue_two)) = 5%nat /\
+  snd (run Base.Arith.exact None residue_two) = None.
+Proof. vm_compute. repeat split. Qed.
+Check C04_residue_remaining_refuted :
+  forallb valid_tx residue_two = true /\
+  snd (run Base.Arith.dec None residue_two) = Some (SRej RejSanityAllLower) /\
+  length (fst (run Base.Arith.dec None residue_two)) = 5%nat /\
+  snd (run Base.Arith.exact None residue_two) = None.
+Print Assumptions C04_residue_remaining_refuted.
+
+(* non-vacuity: the rows of the old witness are rows of one affiliate, the
+   split row is a row of delta_for_tx under rounding whose pre status has
+   all = share, and 6.8333333333333333333333333333 is a value *)
+Example C04_residue_nonvacuous :
+  Forall (fun t => t_af t = default_aff) residue_old /\
+  fit (rq 68333333333333333333333333333 10000000000000000000000000000) =
+    Some (rq 68333333333333333333333333333 10000000000000000000000000000) /\
+  match run_loop Base.Arith.dec [] {| ps_map := []; ps_all := 0%Qc; ps_latest := default_aff |} [hd (rmk default_aff 0 (Roc 0%Qc 0%Qc)) residue_old] with
+  | ([d], None) =>
+      let st := {| ps_map := [(af_id default_aff, d_post d)]; ps_all := s_all (d_post d); ps_latest := default_aff |} in
+      Qceqb (s_all (next_pre_status st default_aff)) (s_sh (next_pre_status st default_aff)) &&
+      is_ok (delta_for_tx Base.Arith.dec [] (nth 1 residue_old (rmk default_aff 0 (Roc 0%Qc 0%Qc))) [] st)
+  | _ => false
+  end = true.
+Proof. split; [repeat constructor|]. vm_compute. split; reflexivity. Qed.
